@@ -46,6 +46,7 @@ type c32World struct {
 	unstakeAt                           int64 // appU begin-unstake height (0: never)
 	bps, win, exp, minProofs, snc, rttm int64
 	firstSBH                            int64
+	start                               int64 // first height of the generated history (4, or 7 when some servicer stakes by transaction)
 	desc                                string
 }
 
@@ -83,15 +84,22 @@ func genC32World(rt *rapid.T) *c32World {
 	if mode == "n-1+victim" {
 		w.snc = int64(nNodes - 1)
 	}
+	// servicers that stake by a real MsgStake in the simulator's setup block (height 4) carry reward delegators
+	// (and sometimes a separate output address); then the generated history starts at height 7
+	viaTx := rapid.Bool().Draw(rt, "someStakeByTx")
+	w.start = 4
+	if viaTx {
+		w.start = 7
+	}
 	if mode != "all" {
 		w.victim = rapid.IntRange(0, nNodes-1).Draw(rt, "victim")
 		if mode == "n-1+victim" {
-			w.absentAt = int64(rapid.IntRange(4, 5).Draw(rt, "absentAt"))
+			w.absentAt = w.start + int64(rapid.IntRange(0, 1).Draw(rt, "absentAt"))
 		} else {
-			w.absentAt = int64(rapid.IntRange(4, 14).Draw(rt, "absentAt"))
+			w.absentAt = w.start + int64(rapid.IntRange(0, 10).Draw(rt, "absentAt"))
 		}
 	}
-	w.firstSBH = 5
+	w.firstSBH = w.start + 1
 	for w.firstSBH%w.bps != 1%w.bps {
 		w.firstSBH++
 	}
@@ -111,12 +119,15 @@ func genC32World(rt *rapid.T) *c32World {
 		if rapid.IntRange(0, 3).Draw(rt, "on0021") > 0 {
 			ns.Chains = append(ns.Chains, "0021")
 		}
-		if rapid.IntRange(0, 2).Draw(rt, "separateOutput") == 0 {
-			ns.Output = chain.Key(fmt.Sprintf("out%d", i))
-			fund(ns.Output, 1_000_000)
-		}
-		if rapid.IntRange(0, 3).Draw(rt, "delegators") == 0 {
+		if viaTx && i != w.victim && rapid.IntRange(0, 1).Draw(rt, "stakesByTx") == 0 {
+			ns.ViaTx = true
 			ns.Delegators = map[string]uint32{chain.Addr(chain.Key(fmt.Sprintf("deleg%d", i))).String(): uint32(rapid.IntRange(1, 40).Draw(rt, "share"))}
+			if rapid.IntRange(0, 3).Draw(rt, "separateOutput") == 0 {
+				// NOTE below height 69583 (codec.NonCustodial1RollbackHeight) the reward code replays a main-net incident:
+				// a servicer whose output address is not itself a validator earns nothing (the model expects a zero mint)
+				ns.Output = chain.Key(fmt.Sprintf("out%d", i))
+				fund(ns.Output, 1_000_000)
+			}
 		}
 		s.Nodes = append(s.Nodes, ns)
 	}
@@ -140,7 +151,7 @@ func genC32World(rt *rapid.T) *c32World {
 		s.Apps = append(s.Apps, chain.AppSpec{Key: k, Stake: stake, Chains: appChains[i]})
 	}
 	if rapid.Bool().Draw(rt, "appUUnstakes") {
-		w.unstakeAt = int64(rapid.IntRange(4, int(w.firstSBH+2*w.bps)).Draw(rt, "unstakeAt"))
+		w.unstakeAt = int64(rapid.IntRange(int(w.start), int(w.firstSBH+2*w.bps)).Draw(rt, "unstakeAt"))
 	}
 	s.NodeParams.SessionBlockFrequency = w.bps
 	s.NodeParams.MaxValidators = int64(nNodes + 1)
@@ -154,8 +165,8 @@ func genC32World(rt *rapid.T) *c32World {
 	s.PocketParams.ClaimExpiration = w.exp
 	s.PocketParams.MinimumNumberOfProofs = w.minProofs
 	s.PocketParams.SupportedBlockchains = []string{"0001", "0021"}
-	w.desc = fmt.Sprintf("world{nodes=%d snc=%d mode=%s victim=%d absentAt=%d bps=%d window=%d expiration=%d minProofs=%d rttm=%d appUunstakeAt=%d app0on0040=%v}",
-		nNodes, w.snc, mode, w.victim, w.absentAt, w.bps, w.win, w.exp, w.minProofs, w.rttm, w.unstakeAt, app0Unsupported)
+	w.desc = fmt.Sprintf("world{start=%d nodes=%d snc=%d mode=%s victim=%d absentAt=%d bps=%d window=%d expiration=%d minProofs=%d rttm=%d appUunstakeAt=%d app0on0040=%v}",
+		w.start, nNodes, w.snc, mode, w.victim, w.absentAt, w.bps, w.win, w.exp, w.minProofs, w.rttm, w.unstakeAt, app0Unsupported)
 	return w
 }
 
@@ -654,8 +665,8 @@ func runC32(rt *rapid.T, c *harness.Case, w *c32World, plans []*c32Plan) {
 	end := int64(0)
 	for _, p := range plans {
 		for _, sb := range p.subs {
-			if sb.at < 4 {
-				sb.at = 4
+			if sb.at <= n.Height {
+				sb.at = n.Height + 1
 			}
 			subs = append(subs, sb)
 			horizon := sb.at + 1
@@ -812,7 +823,8 @@ func (r *c32Run) deliverProof(h int64, sb *c32Sub, feeCollector string, validSee
 	// (read live: a replay-attack burn earlier in this very block may have pushed the stake under the bin)
 	weightOne := false
 	if v, ok := r.n.App.VerifNodesKeeper().GetValidator(r.n.Ctx(), node); ok && v.StakedTokens.GTE(sdk.NewInt(chain.StakeUnit)) {
-		weightOne = true
+		// ... and below height 69583 a servicer with a separate, non-validator output address earns nothing
+		weightOne = v.OutputAddress == nil || v.OutputAddress.Equals(v.Address)
 	}
 	accBefore := r.n.Accounts()
 	before := r.supply()
@@ -856,14 +868,6 @@ func (r *c32Run) deliverProof(h int64, sb *c32Sub, feeCollector string, validSee
 			r.rejectedHdr[rf.Header(w.apps[p.app].PublicKey(), p.chain, p.sbh).HashString()] = true
 		}
 		if expectValid && weightOne {
-			dbgDump(r, node)
-			fmt.Printf("DBG res=%+v\n", res)
-			for a, coins := range r.n.Accounts() {
-				if !coins.IsEqual(accBefore[a]) {
-					fmt.Printf("DBG acc %s %s -> %s\n", a, accBefore[a], coins)
-				}
-			}
-			fmt.Printf("DBG supply before=%s after=%s\n", before, r.supply())
 			c.Violation("C32/proof/valid-proof-not-rewarded", "%s: the required leaf of a live, mature, unexpired claim was not rewarded (%s)", sb.desc, res.Log)
 		}
 		if expectValid && !weightOne {
